@@ -12,6 +12,6 @@ PLAN = {
 CLAIM = {
     "engine": "rapidcheck-tape",
     "technique": "property-based differential testing against a reference known by construction: import forests cut out of one ground-truth model, flattenModel compared with the unsplit model (structure, equivalences, units reduced independently, validity, analysis, values of the compiled generated C code), dumps of the inputs before/after",
-    "text": "Each case cuts one generated ground-truth model (known roles and values, C03 machinery) into a main model and 1-5 library models - imported components with encapsulated children and internal connections, chains up to depth 4, diamonds, one library component or units imported several times, units used by cn only, library-side names chosen to clash with importer-side names - resolves the imports (addModel keys or files in a run-private directory) and flattens. Because the forest was cut from a model whose meaning is known, the expected flat model is that model: the flat model must be import-free, validate when the inputs do, have the same components, variables, equivalence classes and (independently reduced) units, be analysed with the same type and roles, and its compiled C code must give the ground-truth values; the main and library models must dump identically before and after. Exploration of the quantifier's shapes with a by-construction oracle; finds lost connections, wrong or dangling units, renaming faults, mutation of inputs and crashes; cannot show absence. The input shapes of the known findings (listed in known.d/C06.json) are excluded by construction most of the time (counted in the evidence) and left in at a low rate so that each finding stays observed.",
+    "text": "Each case cuts one generated ground-truth model (known roles and values, C03 machinery) into a main model and 1-5 library models - imported components with encapsulated children and internal connections, chains up to depth 4, diamonds, one library component or units imported several times, units used by cn only, library-side names chosen to clash with importer-side names - resolves the imports (addModel keys or files in a run-private directory) and flattens. Because the forest was cut from a model whose meaning is known, the expected flat model is that model: the flat model must be import-free, validate when the inputs do, have the same components, variables, equivalence classes and (independently reduced) units, be analysed with the same type and roles, and its compiled C code must give the ground-truth values; the main and library models must dump identically before and after. Exploration of the quantifier's shapes with a by-construction oracle; finds lost connections, wrong or dangling units, renaming faults, mutation of inputs and crashes; cannot show absence. The input shapes of the known findings (listed in known_findings.json) are excluded by construction most of the time (counted in the evidence) and left in at a low rate so that each finding stays observed.",
     "note": "Trusts the ground-truth generator and reference evaluator shared with C03, the harness's own units reduction, dump and XML writer, the system C compiler. resolveImports() leaves imported units that only encapsulated children use unresolved (C07's subject): the harness then resolves the library models explicitly (counted). Validator false positives on valid forests (imported units of connected variables not followed; two imports of one units_ref from one href) make the validity clause vacuous for those cases (counted as classes).",
 }
